@@ -47,3 +47,12 @@ Theorem C02_reachable_literal : forall c f segs content t,
   handle c f (ch_slash :: CertAuth.join_slash segs) = OServe (s_root c ++ segs) (mime_of (s_root c ++ segs)) t.
 Proof. exact Fs_proofs.reachable_literal_partial. Qed.
 Print Assumptions C02_reachable_literal.
+
+(* tie to the code: the definition regenerated from utils.url.canonical_path_segments (clamp=False, as the handlers call it)
+   computes Model.Fs.canon_strict *)
+From NV Require Gen.PyGen Equiv.Equiv.
+Theorem C02_code_tie : forall (unq : str -> str) path,
+  PyGen.gen_canonical_path_segments unq path false =
+  match canon_strict (comps (unq path)) [] with Some s => Ok s | None => Err (lit "ValueError") [] end.
+Proof. exact Equiv.canonical_segments_strict_tie. Qed.
+Print Assumptions C02_code_tie.
